@@ -569,6 +569,23 @@ fn run_shape(c: &ShapeCase) -> Outcome {
             ] {
                 let body = mk(c.n);
                 fidelity(tag, &body, &format!("tag {tag} body of {} octets", body.len()), Identity::Full, &mut o);
+                // read from partial-body framing: what is announced is what is then written
+                if tag == 11 && body.len() >= 512 {
+                    let first = 9u8;
+                    if let Some(framed) = frame::frame_partial(tag, &body, &[first], frame::LenForm::New5) {
+                        if let Ok(p) = parse_framed(&framed) {
+                            if let Ok(full) = p.to_bytes() {
+                                if p.write_len() != full.len() {
+                                    o.push("C05:shape:write_len_with_header-differs", format!("tag {tag} len {} read from partial-body framing: announces {} octets, writes {}", c.n, p.write_len(), full.len()));
+                                }
+                                match frame::deframe(&full) {
+                                    Ok(fr) if fr.len() == 1 && fr[0].body == body => {}
+                                    other => o.push("C05:shape:partial-framing-rewritten-untruthfully", format!("tag {tag} len {}: {:?}", c.n, other.map(|f| f.len()))),
+                                }
+                            }
+                        }
+                    }
+                }
                 // legacy framing: format preserved
                 if tag < 16 {
                     for form in [frame::LenForm::Old1, frame::LenForm::Old2, frame::LenForm::Old4, frame::LenForm::New5] {
